@@ -99,6 +99,8 @@ type c20sys struct {
 	returned       bool
 	cancelAt       time.Duration
 	cancelled      bool
+	qCtx           *query_context.Context // the caller's query context
+	respAtReturn   *dns.Msg               // what it held when Exec returned
 }
 
 var c20Deadlines = []time.Duration{0, 300 * time.Millisecond, 650 * time.Millisecond, 2 * time.Second}
@@ -125,8 +127,10 @@ func c20Call(s *c20sys) {
 			c()
 		})
 	}
+	s.qCtx = qCtx
 	s.err = f.Exec(ctx, qCtx)
 	s.retAt, s.returned = vs.Elapsed()-s.base, true
+	s.respAtReturn = qCtx.R()
 	if r := qCtx.R(); r != nil && len(r.Answer) == 1 {
 		if a, ok := r.Answer[0].(*dns.A); ok {
 			if a.A.Equal(net.IPv4(1, 1, 1, 1)) {
@@ -229,6 +233,19 @@ func c20Judge(s *c20sys, x *vs.Exec) (string, *vs.Violation) {
 	}
 	if !s.returned {
 		return V("no-return", fmt.Sprintf("Exec never returned (parked: %v)", x.Blocked))
+	}
+	// the call is over: what the caller holds is the outcome, a worker that finishes later must not touch it
+	if now := s.qCtx.R(); now != s.respAtReturn {
+		what := func(m *dns.Msg) string {
+			if m == nil {
+				return "no response"
+			}
+			if len(m.Answer) == 1 {
+				return "the answer " + m.Answer[0].String()
+			}
+			return "a response without answer"
+		}
+		return V("response-changed-after-return", fmt.Sprintf("when Exec returned the caller's query context held %s, at the end of the execution it holds %s", what(s.respAtReturn), what(now)))
 	}
 	if x.EarlyTimers > 0 {
 		return key, nil // timing clauses are only evaluated when timers fire at quiescence
